@@ -20,7 +20,15 @@ from harness.common import rat, wl, lean_list, lean_str, corpus_cases
 PID = 'C13'
 MODULES = ['NoteSeqVerif.Props.C13']
 EXE = 'drv_c13'
-THEOREMS = []   # filled in below (kept next to the statements' one-line meanings)
+THEOREMS = ['NSV.C13.' + t for t in (
+    'shift_spec shift_error_iff stretch_spec stretch_one stretch_error_iff '
+    'remove_redundant_in_effect remove_redundant_drops_only_repeats remove_redundant_frame dedup_keeps_first '
+    'concat_ok_iff concat_spec concat_pieces concat_offsets_exact_durations concat_offsets_exact_totals concat_errors '
+    'merge_spec adjust_drop_iff adjust_ok_iff adjust_error_iff adjust_total_is_max '
+    'interp_knots interp_clamps interp_monotone interp_range interp_divisor_pos '
+    'rectify_no_beats_iff rectify_quantized rectify_spec rectify_beats_land '
+    'expand_no_groups sections_in_group expand_spec expand_sections expand_spans expand_lookup '
+    'repeat_spec repeat_count_exact repeat_offsets_exact').split()]
 
 EV = ['time_signatures', 'key_signatures', 'tempos', 'pitch_bends', 'control_changes',
       'text_annotations', 'section_annotations']
@@ -46,6 +54,11 @@ def _container_names(fn, anchor):
 def generate(chk):
     from note_seq import sequences_lib as sl
     from note_seq.protobuf import music_pb2
+    try:        # Model/C13Full.lean imports property C02's model: keep its generated constants fresh too
+        from harness import c02
+        c02.generate(chk)
+    except Exception as e:  # pylint: disable=broad-except
+        chk.notes['c02_generate'] = 'not run: %s' % e
     shift = _container_names(sl.shift_sequence_times, 'events_to_shift')
     stretch = _container_names(sl.stretch_note_sequence, 'events')
     adjust = _container_names(sl.adjust_notesequence_times, 'events')
@@ -223,7 +236,12 @@ def py_flatten(groups):
 
 
 def request(sl, case):
-    """(driver request line, implementation result line, implementation result object or exception)"""
+    """list of (driver request line, implementation result line) for one case"""
+    r = request1(sl, case)
+    return r if isinstance(r, list) else [r]
+
+
+def request1(sl, case):
     import numpy as np
     op = case['op']
     seqs = [from_hex(h) for h in case['seqs']]
@@ -282,10 +300,10 @@ def request(sl, case):
         ns, D, sd = seqs[0], case['D'], case.get('sd')
         with Spy(sl) as spy:
             try:
-                sl.repeat_sequence_to_duration(ns, D, sd)
-                exc = None
+                out = sl.repeat_sequence_to_duration(ns, D, sd)
+                exc, full = None, 'ok ' + enc_m(out)
             except Exception as e:  # pylint: disable=broad-except
-                exc = e
+                exc, full = e, err_line(e)
         if spy.calls:
             arg, a, b = spy.calls[0][:3]
             res = 'ok %s %s %s' % (rat(float(a)), rat(float(b)), enc_m(arg))
@@ -293,7 +311,8 @@ def request(sl, case):
             res = err_line(exc)
         d = sd if sd else ns.total_time
         n = max(0, int(math.ceil(D / d))) if d else 0
-        return 'repcat %s %s %s %s' % (merged_meta([ns] * n), rat(float(D)), rat(float(sd or 0)), enc_m(ns)), res
+        args = '%s %s %s %s' % (merged_meta([ns] * n), rat(float(D)), rat(float(sd or 0)), enc_m(ns))
+        return [('repcat ' + args, res), ('repeat ' + args, full)]
     if op == 'expand':
         ns = seqs[0]
         with Spy(sl) as spy:
@@ -306,7 +325,8 @@ def request(sl, case):
         for (_, a, b, r, e) in spy.calls:
             tab.append('%s %s %s' % (rat(float(a)), rat(float(b)), 'ok ' + nswire.encode(r) if e is None else err_line(e)))
         k = len(py_flatten(ns.section_groups))
-        return 'expand %s %s %s' % (merged_meta([ns] * k), wl(tab), enc_m(ns)), res
+        mm = merged_meta([ns] * k)
+        return [('expand %s %s %s' % (mm, wl(tab), enc_m(ns)), res), ('expandfull %s %s' % (mm, enc_m(ns)), res)]
     raise ValueError(op)
 
 
@@ -483,8 +503,11 @@ def o_concat(sl, case):
         for k in EV + ['notes', 'section_groups']:
             getattr(exp, k).extend(getattr(p, k))
     for k in ['notes', 'section_groups'] + [k for k in EV if k not in STATE]:
-        if list(getattr(out, k)) != list(getattr(exp, k)):
-            return 'concatenated %s differ: %s' % (k, first_diff(exp, out))
+        a, b = list(getattr(exp, k)), list(getattr(out, k))
+        if a != b:
+            i = next((i for i, (x, y) in enumerate(zip(a, b)) if x != y), min(len(a), len(b)))
+            return '%s of the pieces placed at offsets %s: %d expected, %d found, first difference at index %d: {%s} vs {%s}' % (
+                k, offs, len(a), len(b), i, str(a[i]).replace('\n', ' ') if i < len(a) else '', str(b[i]).replace('\n', ' ') if i < len(b) else '')
     for k in STATE:
         r = check_state_events(k, list(getattr(exp, k)), getattr(out, k))
         if r:
@@ -496,6 +519,8 @@ def o_concat(sl, case):
             return 'total_time %r, pieces end at %r' % (out.total_time, totals)
         if any(n.end_time > out.total_time for n in out.notes):
             return 'total_time does not cover a note'
+    if merge and out.total_time != max([s.total_time for s in seqs] + ([] if seqs else [0.0])):
+        return 'merged total_time %r is not the longest of %r' % (out.total_time, [s.total_time for s in seqs])
     tpqs = [s.ticks_per_quarter for s in seqs if s.ticks_per_quarter]
     if out.ticks_per_quarter != (tpqs[-1] if tpqs else 0):
         return 'ticks_per_quarter is not the last one given'
@@ -642,24 +667,48 @@ def o_repeat(sl, case):
         return expect_err(err, {'ValueError'})
     if err is not None:
         return 'unexpected %s on a valid input' % type(err).__name__
-    exp, off, k = [], 0.0, 0
-    while off < D and k < 10000:
-        for n in ns.notes:
-            a = fl(F(n.start_time) + F(off)) if off > 0 else n.start_time
-            b = fl(F(n.end_time) + F(off)) if off > 0 else n.end_time
-            if a < D:
-                exp.append(note_key(n, a, min(b, D)))
-        off = fl(F(off) + F(d))
-        k += 1
-    got = [n.SerializeToString(deterministic=True) for n in out.notes]
-    if sorted(got) != sorted(exp):
-        return 'notes are not the copies at multiples of %r cut at %r (%d found, %d expected)' % (d, D, len(got), len(exp))
+    # "enough copies": n = ceil(D/d).  D/d is a float quotient in the code; when the real quotient is within
+    # 2^-40 (relative) of an integer m the rounded quotient may be m itself, so m copies are accepted as well
+    # (the copy that is then missing would start less than 2^-40*D before the cut).
+    ratio = F(D) / F(d)
+    cands = {math.ceil(ratio)}
+    m = round(ratio)
+    if m >= 1 and abs(ratio - m) <= ratio * F(1, 2**40):
+        cands |= {m, m + 1}
+    got = sorted(n.SerializeToString(deterministic=True) for n in out.notes)
+    ok = False
+    for ncopies in sorted(cands):
+        exp, off = [], 0.0
+        for k in range(ncopies):
+            for n in ns.notes:
+                a = fl(F(n.start_time) + F(off)) if off > 0 else n.start_time
+                b = fl(F(n.end_time) + F(off)) if off > 0 else n.end_time
+                if a < D:
+                    exp.append(note_key(n, a, min(b, D)))
+            off = fl(F(off) + F(d))
+        if got == sorted(exp):
+            ok = True
+            break
+    if not ok:
+        return 'notes are not the %s copies at multiples of %r cut at %r (%d found, %d expected)' % (sorted(cands), d, D, len(got), len(exp))
     starts = [n.start_time for n in out.notes]
     if out.total_time > D or any(n.end_time > out.total_time for n in out.notes):
         return 'total_time'
     if out.HasField('subsequence_info'):
         return 'subsequence_info kept'
-    return None
+    # "the concatenation of enough copies CUT at the requested duration": every other container must be what
+    # the cut leaves of the concatenated copies — evaluated by composing the library's own public operations
+    # (not the model): a cut keeps no pitch bends, only pedal controllers, only chord/beat annotations (C02).
+    for ncopies in sorted(cands):
+        try:
+            cat = sl.concatenate_sequences([ns] * ncopies, [d] * ncopies)
+            cut = sl.extract_subsequence(cat, 0, D)
+        except Exception:  # pylint: disable=broad-except
+            continue
+        cut.ClearField('subsequence_info')
+        if cut.SerializeToString(deterministic=True) == out.SerializeToString(deterministic=True):
+            return None
+    return 'result is not the concatenation of %s copies cut at %r (containers other than notes differ)' % (sorted(cands), D)
 
 
 def o_expand(sl, case):
@@ -712,7 +761,8 @@ ORACLES = {'shift': o_shift, 'stretch': o_stretch, 'rr': o_rr, 'concat': o_conca
 
 # ----------------------------------------------------------------------------- generators
 def ulps(rng, x, k=3):
-    return nswire.nextafter_n(x, rng.randrange(-k, k + 1))
+    y = nswire.nextafter_n(x, rng.randrange(-k, k + 1))
+    return y if y == 0 or abs(y) > 1e-300 else x     # subnormals are outside the float model (DESIGN 2.3)
 
 
 def pos_double(rng):
@@ -992,16 +1042,16 @@ def case_expand(rng):
 
 
 STREAMS = [  # (name, case generator, quick count, thorough count)
-    ('shift', case_shift, 400, 12000),
-    ('stretch', case_stretch, 400, 12000),
-    ('remove_redundant', case_rr, 400, 12000),
-    ('concatenate', case_concat, 700, 20000),
-    ('merge', lambda rng: case_concat(rng, merge=True), 200, 6000),
-    ('adjust', case_adjust, 600, 16000),
-    ('rectify', case_rectify, 500, 14000),
-    ('interp', case_interp, 1500, 60000),
-    ('repeat', case_repeat, 400, 10000),
-    ('expand', case_expand, 400, 10000),
+    ('shift', case_shift, 1500, 30000),
+    ('stretch', case_stretch, 1500, 30000),
+    ('remove_redundant', case_rr, 1500, 30000),
+    ('concatenate', case_concat, 2500, 50000),
+    ('merge', lambda rng: case_concat(rng, merge=True), 600, 12000),
+    ('adjust', case_adjust, 2000, 40000),
+    ('rectify', case_rectify, 2000, 40000),
+    ('interp', case_interp, 5000, 150000),
+    ('repeat', case_repeat, 1500, 25000),
+    ('expand', case_expand, 1500, 25000),
 ]
 
 
@@ -1023,41 +1073,48 @@ def run(chk):
                 'time maps with and without minimum_duration; beat lists (jittered, on event times, duplicated, after the end, none) '
                 'x bpm; np.interp knots +- ulps; repeat targets at, next to and between multiples; section-group forests. '
                 'non-trivial = distinct request answered by the model with a value or a Python exception name')
-    cases = []
-    for name, c in corpus_cases(PID):
-        c = c.get('input', c)
-        cases.append(('corpus', c, ['corpus:' + name]))
-    for name, gen, q, t in STREAMS:
-        rng = chk.subrng(name)
-        for _ in range(chk.n(q, t)):
-            c, hist = gen(rng)
-            cases.append((name, c, hist))
-    reqs, impl = [], []
-    for name, c, hist in cases:
-        req, res = request(sl, c)
-        reqs.append(req)
-        impl.append(res)
-    model = chk.driver(EXE, reqs)
     shown = set()
-    for (name, c, hist), req, a, b in zip(cases, reqs, impl, model):
-        chk.count(name, req, not b.startswith('bad-op'), hist + [result_kind(a)])
-        if a != b:
-            chk.disagree(name, c, a[:1500], b[:1500])
-        if name not in shown and a.startswith('ok') and len(req) > 200:
-            shown.add(name)
-            chk.sample({'stream': name, 'request': req[:160] + ' …', 'impl': a[:120] + ' …', 'model_equal': a == b}, limit=12)
-    # the property oracle on the real code (independent of the model)
-    for name, c, hist in cases:
-        chk.count('oracle', None)
-        try:
-            r = ORACLES[c['op']](sl, c)
-        except Exception as e:  # pylint: disable=broad-except
-            import traceback
-            raise RuntimeError('oracle crashed on %s: %s' % (c['op'], traceback.format_exc())) from e
-        if r:
-            chk.fail('%s: %s' % (c['op'], r), c)
+
+    def batch(cases):
+        reqs, impl, owner = [], [], []
+        for name, c, hist in cases:
+            for req, res in request(sl, c):
+                reqs.append(req)
+                impl.append(res)
+                owner.append((name, c, hist))
+        model = chk.driver(EXE, reqs)
+        for (name, c, hist), req, a, b in zip(owner, reqs, impl, model):
+            chk.count(name, req, not b.startswith('bad-op'), hist + ['op:' + req.split(' ', 1)[0], result_kind(a)])
+            if a != b:
+                chk.disagree(name, c, a[:1500], b[:1500])
+            if name not in shown and a.startswith('ok') and len(req) > 200:
+                shown.add(name)
+                chk.sample({'stream': name, 'request': req[:160] + ' …', 'impl': a[:120] + ' …', 'model_equal': a == b}, limit=12)
+        # the property oracle on the real code (independent of the model)
+        for name, c, hist in cases:
             if len(chk.failures) > 20:
                 break
+            chk.count('oracle', None)
+            try:
+                r = ORACLES[c['op']](sl, c)
+            except Exception as e:  # pylint: disable=broad-except
+                import traceback
+                raise RuntimeError('oracle crashed on %s: %s' % (c['op'], traceback.format_exc())) from e
+            if r:
+                chk.fail('%s: %s' % (c['op'], r), c)
+
+    batch([('corpus', c.get('input', c), ['corpus:' + name]) for name, c in corpus_cases(PID)])
+    for name, gen, q, t in STREAMS:
+        rng = chk.subrng(name)
+        left = chk.n(q, t)
+        while left > 0:
+            k = min(left, 10000)
+            left -= k
+            cases = []
+            for _ in range(k):
+                c, hist = gen(rng)
+                cases.append((name, c, hist))
+            batch(cases)
 
 
 def replay(chk, obj):
